@@ -10,11 +10,11 @@ def run_group(here, repo, pid, harnesses, tier):
         shutil.copy(os.path.join(repo, 'Cargo.lock'), os.path.join(kdir, 'Cargo.lock'))
     except OSError as e:
         out['undecided'].append('kani: cannot copy Cargo.lock: %s' % e); return out
-    env = dict(os.environ, CARGO_NET_OFFLINE='true', CARGO_TARGET_DIR=os.path.join(here, '.build', 'kani-target'))
+    env = dict(os.environ, CARGO_NET_OFFLINE='true', CARGO_TARGET_DIR=os.path.join(here, '.build', 'kani-target'), RUSTFLAGS='--cfg gohla_pie_verif')
     names = [h['harness'] for h in harnesses]
     cmd = ['cargo', 'kani', '-Z', 'function-contracts', '-Z', 'stubbing', '--output-format', 'terse', '-j', '8']
     for n in names: cmd += ['--harness', n]
-    out['cmd'] = 'cd kani && CARGO_NET_OFFLINE=true ' + ' '.join(cmd)
+    out['cmd'] = 'cd kani && CARGO_NET_OFFLINE=true RUSTFLAGS="--cfg gohla_pie_verif" ' + ' '.join(cmd)
     t0 = time.time()
     try:
         p = subprocess.run(cmd, cwd=kdir, env=env, capture_output=True, text=True, timeout=3000)
@@ -22,16 +22,31 @@ def run_group(here, repo, pid, harnesses, tier):
     except subprocess.TimeoutExpired:
         out['undecided'].append('kani: timeout'); return out
     out['timing'] = {'wall_s': round(time.time() - t0, 1)}
-    # parse per-harness results
+    # parse per-harness results (with -j the output of each finished harness is one block tagged by its thread)
     res = {}
-    cur = None
+    running = {}; cur = None
     for line in txt.split('\n'):
-        m = re.search(r'Checking harness (\S+?)\.\.\.', line)
-        if m: cur = m.group(1).split('::')[-1]; res[cur] = {'lines': []}
-        if cur:
+        m = re.match(r'^(?:Thread (\d+): )?Checking harness (\S+?)\.\.\.', line)
+        if m:
+            name = m.group(2).split('::')[-1]; running[m.group(1) or '0'] = name; res.setdefault(name, {'lines': []})
+            cur = name if m.group(1) is None else cur
+            continue
+        m = re.match(r'^Thread (\d+):\s*$', line)
+        if m: cur = running.get(m.group(1)); continue
+        if cur and cur in res:
             res[cur]['lines'].append(line)
             if 'VERIFICATION:- SUCCESSFUL' in line: res[cur]['ok'] = True
             elif 'VERIFICATION:- FAILED' in line: res[cur]['ok'] = False
+    for m in re.finditer(r'Verification failed for - (\S+)', txt):
+        res.setdefault(m.group(1).split('::')[-1], {'lines': []})['ok'] = False
+    m = re.search(r'Complete - (\d+) successfully verified harnesses, (\d+) failures, (\d+) total', txt)
+    if m:
+        out['timing']['summary'] = m.group(0)
+        n_ok = sum(1 for r in res.values() if r.get('ok') is True)
+        if int(m.group(1)) != n_ok or int(m.group(3)) != len(names):
+            out['undecided'].append('kani: summary (%s) disagrees with parsed per-harness results (%d ok of %d requested)' % (m.group(0), n_ok, len(names)))
+    else:
+        out['undecided'].append('kani: no summary line; tail: ' + txt[-400:])
     if 'error: could not compile' in txt or 'error[E' in txt:
         out['undecided'].append('kani: harness crate does not compile against the current tree: ' + '\n'.join(l for l in txt.split('\n') if 'error' in l)[:600])
     for h in harnesses:
@@ -49,3 +64,33 @@ def run_group(here, repo, pid, harnesses, tier):
     out['trusted'] = ['kani 0.68 / CBMC: full-domain symbolic, loop-free harnesses for the instantiations named in each harness',
                       'kani: alloc::fmt::format stubbed where noted in kani/src']
     return out
+
+
+def playback(here, repo, harness):
+    """Concrete values for a failing harness (Kani's concrete playback), as text."""
+    kdir = os.path.join(here, 'kani')
+    env = dict(os.environ, CARGO_NET_OFFLINE='true', CARGO_TARGET_DIR=os.path.join(here, '.build', 'kani-target'), RUSTFLAGS='--cfg gohla_pie_verif')
+    cmd = ['cargo', 'kani', '-Z', 'function-contracts', '-Z', 'stubbing', '-Z', 'concrete-playback', '--concrete-playback=print', '--harness', harness]
+    try:
+        p = subprocess.run(cmd, cwd=kdir, env=env, capture_output=True, text=True, timeout=1800)
+    except subprocess.TimeoutExpired:
+        return None
+    txt = p.stdout
+    i = txt.find('Concrete playback unit test')
+    vals = txt[i:i + 3000] if i >= 0 else None
+    fails = [l for l in txt.split('\n') if 'Failed Checks' in l or ('Status: FAILURE' in l)]
+    return {'kani_harness': harness, 'failed_checks': fails[:8], 'concrete_playback_test': vals}
+
+def replay(here, repo, harness):
+    """Re-run one harness on the real crate: (ok, text)."""
+    kdir = os.path.join(here, 'kani')
+    try:
+        shutil.copy(os.path.join(repo, 'Cargo.lock'), os.path.join(kdir, 'Cargo.lock'))
+    except OSError:
+        pass
+    env = dict(os.environ, CARGO_NET_OFFLINE='true', CARGO_TARGET_DIR=os.path.join(here, '.build', 'kani-target'), RUSTFLAGS='--cfg gohla_pie_verif')
+    cmd = ['cargo', 'kani', '-Z', 'function-contracts', '-Z', 'stubbing', '--output-format', 'terse', '--harness', harness]
+    p = subprocess.run(cmd, cwd=kdir, env=env, capture_output=True, text=True, timeout=3000)
+    ok = 'VERIFICATION:- SUCCESSFUL' in p.stdout and 'VERIFICATION:- FAILED' not in p.stdout
+    tail = '\n'.join(l for l in p.stdout.split('\n') if 'Failed Checks' in l or 'VERIFICATION' in l)
+    return ok, tail
